@@ -93,15 +93,20 @@ pub fn judge_text(rec: &Value, o: &Value) -> Vec<String> {
         "disasm" => {
             if o["dis"] == "panic" {
                 bad.push(format!("disassembler panicked: {}", o["msg"]));
+                if rec["exp"]["expressible"] == json!(true) {
+                    bad.push("round trip impossible: the disassembler panicked on an assembler-expressible program".to_string());
+                }
                 return bad;
             }
             let exp = arr(&rec["exp"]["entries"]);
             let got = arr(&o["entries"]);
             if exp.len() != got.len() {
                 bad.push(format!("{} entries instead of {}", got.len(), exp.len()));
-                return bad;
             }
             for (k, (e, g)) in exp.iter().zip(got.iter()).enumerate() {
+                if exp.len() != got.len() {
+                    break;
+                }
                 for f in ["opc", "dst", "src", "off"] {
                     if e[f].as_i64() != g[f].as_i64() {
                         bad.push(format!("entry {k}: {f} = {} instead of {}", g[f], e[f]));
